@@ -6,8 +6,8 @@
    (events, weight, delete policies and output-log policies as strings), and the sequence of hook
    watches and log fetches (outputLogsByPolicy) of the operation with the model's [op_levs]. *)
 From Coq Require Import List String Bool Arith ZArith.
-From Helm Require Export Run.RunEng Engine.HookMeta.
-From Helm Require Import Engine.Types.
+From Helm Require Export Run.RunEng Engine.HookMeta Engine.HookTest.
+From Helm Require Import Engine.Types Engine.Eff Engine.Ops Engine.Cluster Engine.Seq.
 From Helm Require Text.Classify.
 Import ListNotations.
 
@@ -26,7 +26,13 @@ Record parse_obs := mkParseObs { po_docs : list res; po_hooks : list parsed }.
    log fetches (GetPodList selector, OutputContainerLogsForPodList) *)
 Record log_obs := mkLogObs { lo_docs : list res; lo_pre : event; lo_post : event; lo_levs : list lev }.
 
-Record case := mkC12 { k_eng : RunEng.case; k_parse : list parse_obs; k_logs : list log_obs }.
+(* the engine case with C12's step type (Engine/HookTest.v: the four operations, edits, helm test) *)
+Record case12 := mkCase12 { c12_init : list (string * fields); c12_steps : list h12; c12_obs : list step_obs }.
+
+Definition eng_ok (c : case12) : bool :=
+  steps_agree (run_history12 rn ns (c12_steps c) (mkW [] (c12_init c))) (c12_obs c).
+
+Record case := mkC12 { k_eng : case12; k_parse : list parse_obs; k_logs : list log_obs }.
 
 Definition parsed_of (r : res) : list parsed :=
   match doc_hook r with
@@ -79,7 +85,7 @@ Definition log_ok (l : log_obs) : bool :=
   levs_eqb (op_levs (hooks_of_docs (lo_docs l)) (lo_pre l) (lo_post l) (watches_of (lo_levs l))) (lo_levs l).
 
 Definition case_ok (c : case) : bool :=
-  RunEng.case_ok (k_eng c) && forallb parse_ok (k_parse c) && forallb log_ok (k_logs c).
+  eng_ok (k_eng c) && forallb parse_ok (k_parse c) && forallb log_ok (k_logs c).
 
 Fixpoint mismatches_from (i : nat) (cs : list case) : list nat :=
   match cs with
@@ -90,4 +96,17 @@ Fixpoint mismatches_from (i : nat) (cs : list case) : list nat :=
 Definition mismatches := mismatches_from 0.
 
 (* debugging: engine agreement and parse agreement separately *)
-Definition diag12 (c : case) := (RunEng.diag (k_eng c), map parse_ok (k_parse c), map log_ok (k_logs c)).
+Definition diag12 (c : case) :=
+  ((fix go ms os :=
+      match ms, os with
+      | m :: t, o :: u =>
+          let '(w, out, tr) := m in
+          (outcome_eqb out (so_out o), rows_eqb (map row_of (sort_by_rev (w_led w))) (so_led o),
+           objs_eqb (w_objs w) (so_objs o), trace_eqb tr (so_trace o)) :: go t u
+      | _, _ => []
+      end) (run_history12 rn ns (c12_steps (k_eng c)) (mkW [] (c12_init (k_eng c)))) (c12_obs (k_eng c)),
+   map parse_ok (k_parse c), map log_ok (k_logs c)).
+
+Definition model_view12 (c : case) :=
+  map (fun m => let '(w, out, t) := m in (out, map row_of (sort_by_rev (w_led w)), w_objs w, t))
+      (run_history12 rn ns (c12_steps (k_eng c)) (mkW [] (c12_init (k_eng c)))).
